@@ -358,7 +358,9 @@ Definition list_ind (ind : option nat) (items : list tree) : option nat :=
   match items with TDict _ :: _ => inner ind | _ => None end.
 
 (* wv ind t = bytes written by t.write(fp, indent=ind) for Dict (with container) and List;
-   by t.write(fp) for the other elements.  TypeError is decided separately ([wraises]). *)
+   by t.write(fp) for the other elements.  Since commit 073f171 (finding F-C18-2) a List written
+   with an indent passes the indent to its Dict items only; any other item goes on its own
+   indented line and is written by item.write(fp) (compact), so no write() can raise TypeError. *)
 Fixpoint wv (ind : option nat) (t : tree) {struct t} : list Z :=
   match t with
   | TDict d =>
@@ -386,7 +388,13 @@ Fixpoint wv (ind : option nat) (t : tree) {struct t} : list Z :=
              end) items ++ [32]
       | Some _ =>
           (fix go (l : list tree) : list Z :=
-             match l with [] => [] | it :: r => wv ind it ++ go r end) items ++ w_nl ind ++ w_ind ind
+             match l with
+             | [] => []
+             | it :: r => (match it with
+                           | TDict _ => wv ind it
+                           | _ => w_nl ind ++ w_ind ind ++ wv None it
+                           end) ++ go r
+             end) items ++ w_nl ind ++ w_ind ind
       end ++ [93]
   | _ => leaf_bytes t
   end.
@@ -401,40 +409,13 @@ Definition wentry (ind : option nat) (kv : list Z * tree) : list Z :=
   end ++ w_nl ind.
 Definition wentries (ind : option nat) (d : kvs) : list Z := flat_map (wentry ind) d.
 
-(* TypeError: write(fp, indent=...) reaches an element whose write() has no [indent] parameter
-   (String, Float, Property, Tag) -- only inside a List written with an indent *)
-Definition no_indent_kw (t : tree) : bool :=
-  match t with TStr _ | TFloat _ | TProp _ | TTag _ => true | _ => false end.
-Fixpoint wraises (ind : option nat) (t : tree) {struct t} : bool :=
-  match t with
-  | TDict d =>
-      (fix go (l : kvs) : bool :=
-         match l with
-         | [] => false
-         | (_, v) :: r =>
-             match v with
-             | TDict _ => wraises (inner ind) v
-             | TList items => wraises (list_ind ind items) v
-             | _ => false
-             end || go r
-         end) d
-  | TList items =>
-      match ind with
-      | None => (fix go (l : list tree) : bool :=
-                   match l with [] => false | it :: r => wraises None it || go r end) items
-      | Some _ => (fix go (l : list tree) : bool :=
-                   match l with [] => false | it :: r => no_indent_kw it || wraises ind it || go r end) items
-      end
-  | _ => false
-  end.
-
 Inductive layout := Indented | Compact.
 (* EngineData(d).tobytes()  = Dict.write(fp, indent=0, write_container=True)
    EngineData2(d).tobytes() = Dict.write(fp, indent=None, write_container=False) *)
 Definition write (ly : layout) (d : kvs) : res (list Z) :=
   match ly with
-  | Indented => if wraises (Some O) (TDict d) then Err TypeErr else Ok (wv (Some O) (TDict d))
-  | Compact => if wraises None (TDict d) then Err TypeErr else Ok (wentries None d)
+  | Indented => Ok (wv (Some O) (TDict d))
+  | Compact => Ok (wentries None d)
   end.
 
 (* ====================================================================== guards of the theorems *)
@@ -462,30 +443,6 @@ Fixpoint wf_tree (t : tree) : bool :=
       (fix go (l : list tree) : bool := match l with [] => true | it :: r => wf_tree it && go r end) items
   | _ => wf_leaf t
   end.
-(* the exact class excluded by finding F-C18-2: a List written with an indent (its first item is a
-   Dict and it is reached through Dicts only) must consist of Dicts *)
-Fixpoint lists_ok (ind : option nat) (t : tree) {struct t} : bool :=
-  match t with
-  | TDict d =>
-      (fix go (l : kvs) : bool :=
-         match l with
-         | [] => true
-         | (_, v) :: r =>
-             match v with
-             | TDict _ => lists_ok (inner ind) v
-             | TList items => lists_ok (list_ind ind items) v
-             | _ => true
-             end && go r
-         end) d
-  | TList items =>
-      match ind with
-      | None => true
-      | Some _ => (fix go (l : list tree) : bool :=
-                     match l with [] => true | it :: r => is_dict it && lists_ok ind it && go r end) items
-      end
-  | _ => true
-  end.
-
 (* ====================================================================== canonical serialisation *)
 (* used by the correspondence check to compare a parsed tree with the implementation's *)
 Definition Zlen {A} (l : list A) : Z := Z.of_nat (length l).
